@@ -25,6 +25,7 @@ EventTags(ev) ==
          [] ev.e = "enum_names"     -> VEnumNames(ev)
          [] ev.e = "bitmask"        -> VBitmask(ev)
          [] ev.e = "bitmask_sweep"  -> VBitmaskSweep(ev)
+         [] ev.e = "rt_sweep"       -> VRtSweep(ev)
          [] ev.e = "render"         -> VRender(ev)
          [] ev.e = "cursor"         -> VCursor(ev)
          [] ev.e = "vecwriter"      -> VVecWriter(ev)
